@@ -695,7 +695,9 @@ def c13():
             dict(anon_pwd=True, anon_ip=False, salt="s13"),
             dict(anon_pwd=False, anon_ip=True, salt=""),
             dict(anon_pwd=False, anon_ip=False, salt="x", sensitive_words=["edge", "edg", "dge", "Edge-Rtr"])]
-    text = CORPUS + "hostname seattle sea edge\n"
+    # type 7 values with every leading seed 00..19 (the classifier accepts [01][0-9]), not only what passlib emits
+    t7 = "".join("enable password 7 %02d08030A2B25\n" % k for k in range(20))
+    text = CORPUS + "hostname seattle sea edge\n" + t7
     for o in opts:
         outs = []
         for seed in (0, 1, 2, 3)[: 2 if QUICK else 4]:
